@@ -41,54 +41,63 @@ def macro_scan():
     return ok1 and ok2 and not others, {"assert_arm": ok1, "empty_arm": ok2, "other_cfg_sites": others}
 
 
-# ---- generated: one always-panics obligation per `glam_assert!` SITE whose condition speaks about `self` or a
-# named argument (sites over internal values - other_len_sq_rcp, normalized, det, dot0, row(k) - are covered by
-# the hand-written representatives below).  Found by scanning the current source on every run.
+# ---- generated: one always-panics obligation per DOCUMENTED panic condition (`# Panics` paragraph of every public
+# function of the float types, scanned from the current source on every run); conditions the generator does not
+# model (matrix rows / columns not normalized ...) are listed as uncovered and have hand-written representatives.
 import props.c18 as c18
 HV = ["hv_sqrt", "hv_sin_cos", "hv_sin", "hv_tan", "hv_atan2", "hv_exp", "hv_powf", "hv_mul_add", "hv_div_euclid", "hv_rem_euclid"]
 
 
-def violate(expr, argtypes, N, n_of):
-    """-> (list of (var, replacement ctor) overrides, assume-text, description) or None"""
-    e = re.sub(r"\s+", " ", expr.strip())
-    e = re.sub(r',\s*".*$', "", e)
-    m = re.match(r"^(\w+)\.is_normalized\(\)$", e)
-    if m:
-        v = m.group(1)
-        ty = N if v == "self" else argtypes.get(v)
-        if ty in ("Quat", "DQuat"):
-            return [(v, "<%s>::from_xyzw(0.0, 0.0, 0.0, 0.0)" % ty)], "", "%s == 0 (not normalized)" % v
-        if ty:
-            return [(v, "<%s>::ZERO" % ty)], "", "%s == 0 (not normalized)" % v
-        return None
-    m = re.match(r"^self\.is_normalized\(\) && (\w+)\.is_normalized\(\)$", e)
-    if m and argtypes.get(m.group(1)):
-        ty = argtypes[m.group(1)]
-        z = "<%s>::from_xyzw(0.0, 0.0, 0.0, 0.0)" % ty if ty in ("Quat", "DQuat") else "<%s>::ZERO" % ty
-        return [(m.group(1), z)], "", "%s == 0 (not normalized)" % m.group(1)
-    m = re.match(r"^0\.0 <= (\w+)$", e)
-    if m and argtypes.get(m.group(1)) in ("f32", "f64"):
-        return [], "vk::assume(%s < 0.0);" % m.group(1), "%s < 0" % m.group(1)
-    m = re.match(r"^(\w+) <= (\w+)$", e)
-    if m and argtypes.get(m.group(1)) in ("f32", "f64") and argtypes.get(m.group(2)) in ("f32", "f64"):
-        return [], "vk::assume(%s > %s);" % (m.group(1), m.group(2)), "%s > %s" % (m.group(1), m.group(2))
-    m = re.match(r"^(\w+) > 0\.0$", e)
-    if m and argtypes.get(m.group(1)) in ("f32", "f64"):
-        return [], "vk::assume(!(%s > 0.0));" % m.group(1), "!(%s > 0)" % m.group(1)
-    m = re.match(r"^(\w+) > 0\.0 && (\w+) > 0\.0$", e)
-    if m and argtypes.get(m.group(1)) in ("f32", "f64") and argtypes.get(m.group(2)) in ("f32", "f64"):
-        return [], "vk::assume(!(%s > 0.0 && %s > 0.0));" % (m.group(1), m.group(2)), "a plane distance is not positive"
-    m = re.match(r"^(\w+)\.cmple\((\w+)\)\.all\(\)$", e)
-    if m and argtypes.get(m.group(1)) in n_of:
-        k = n_of[argtypes[m.group(1)]]
-        return [], "let li: usize = vk::any(); vk::assume(li < %d); vk::assume(%s.to_array()[li] > %s.to_array()[li]);" % (k, m.group(1), m.group(2)), "%s > %s in some lane" % (m.group(1), m.group(2))
-    m = re.match(r"^(\w+)\.cmpne\((\w+)::ZERO\)\.(any|all)\(\)$", e)
-    if m and argtypes.get(m.group(1)) in n_of:
-        if m.group(3) == "any":
-            return [(m.group(1), "<%s>::ZERO" % m.group(2))], "", "%s == 0" % m.group(1)
-        k = n_of[argtypes[m.group(1)]]
-        return [], "let li: usize = vk::any(); vk::assume(li < %d); vk::assume(%s.to_array()[li] == 0.0);" % (k, m.group(1)), "%s has a zero lane" % m.group(1)
-    return None
+def doc_violations(doc, argtypes, N, n_of):
+    """The SPEC is the function's documentation (`# Panics` paragraph), not its glam_assert! text: so a weakened or
+    removed assertion fails the obligation instead of silently changing it.  -> list of (overrides, assume, what)"""
+    m = re.search(r"# Panics\s*(.*?)(?:\n\s*\n|\Z)", doc, re.S)
+    if not m:
+        return [], None
+    txt = re.sub(r"\s+", " ", m.group(1))
+    if "glam_assert" not in txt:
+        return [], None
+    out = []
+    ty_of = lambda v: N if v == "self" else argtypes.get(v)
+    zero = lambda ty: "<%s>::from_xyzw(0.0, 0.0, 0.0, 0.0)" % ty if ty in ("Quat", "DQuat") else "<%s>::ZERO" % ty
+    handled = False
+    mm = re.search(r"if ((?:`\w+`(?:, | or | and )?)+) (?:is|are) not normalized", txt)
+    if mm:
+        handled = True
+        for v in re.findall(r"`(\w+)`", mm.group(1)):
+            ty = ty_of(v)
+            if ty and (ty in n_of or ty in ("Quat", "DQuat")):
+                out.append(([(v, zero(ty))], "", "`%s` is not normalized (zero)" % v))
+    if re.search(r"`min` is greater than `max`", txt):
+        handled = True
+        ty = argtypes.get("min")
+        if ty in ("f32", "f64"):
+            out.append(([], "vk::assume(min > max);", "min > max"))
+        elif ty in n_of:
+            out.append(([], "let li: usize = vk::any(); vk::assume(li < %d); vk::assume(min.to_array()[li] > max.to_array()[li]);" % n_of[ty], "min > max in some lane"))
+    for v in ("min", "max"):
+        if re.search(r"(?:either `min` or `max`|`%s`) is negative" % v, txt) and argtypes.get(v) in ("f32", "f64"):
+            handled = True
+            out.append(([], "vk::assume(%s < 0.0);" % v, "%s is negative" % v))
+    mm = re.search(r"if ((?:`z_\w+`(?: or )?)+) (?:is|are) less than or equal to zero", txt)
+    if mm:
+        handled = True
+        for v in re.findall(r"`(\w+)`", mm.group(1)):
+            if argtypes.get(v) in ("f32", "f64"):
+                out.append(([], "vk::assume(%s <= 0.0);" % v, "%s <= 0" % v))
+    if re.search(r"the determinant of `self` is zero", txt) and N.replace("D", "").startswith(("Mat", "Affine")):
+        handled = True
+        out.append(([("self", "<%s>::ZERO" % N)], "", "the determinant of self is zero (zero matrix)"))
+    if re.search(r"all elements of `scale` are zero", txt) and argtypes.get("scale") in n_of:
+        handled = True
+        out.append(([("scale", "<%s>::ZERO" % argtypes["scale"])], "", "all elements of scale are zero"))
+    if re.search(r"contains any zero elements", txt) and argtypes.get("scale") in n_of:
+        handled = True
+        out.append(([], "let li: usize = vk::any(); vk::assume(li < %d); vk::assume(scale.to_array()[li] == 0.0);" % n_of[argtypes["scale"]], "scale has a zero element"))
+    if re.search(r"`rhs` (?:is zero length|has a length of zero)", txt) and argtypes.get("rhs") in n_of:
+        handled = True
+        out.append(([("rhs", "<%s>::ZERO" % argtypes["rhs"])], "", "rhs has zero length"))
+    return out, (None if handled else txt)
 
 
 def site_obligations(config, obs, uncovered):
@@ -103,45 +112,37 @@ def site_obligations(config, obs, uncovered):
         for am in re.finditer(r"\b(\w+) as (\w+)\b", " ".join(re.findall(r"^use crate::[^;]+;", src, re.M))):
             if am.group(2) in c18.KNOWN_T:
                 src = re.sub(r"\b%s\b" % am.group(2), am.group(1), src)
-        for m in re.finditer(r"^    pub (?:const )?fn (\w+)(<[^>]*>)?\(\s*([^)]*?)\s*\)(?: -> ([^{]+?))? \{\n(.*?)^    \}", src, re.M | re.S):
-            fn, gen, args, body = m.group(1), m.group(2), re.sub(r"\s+", " ", m.group(3)), m.group(5)
-            sites = re.findall(r"glam_assert!\(((?:[^;]|\n)*?)\);", body)
-            if not sites or gen:
+        for m in re.finditer(r"((?:^    ///[^\n]*\n)+)(?:^    #\[[^\n]*\]\n)*^    pub (?:const )?fn (\w+)(<[^>]*>)?\(\s*([^)]*?)\s*\)", src, re.M | re.S):
+            doc, fn, gen, args = re.sub(r"^    /// ?", "", m.group(1), flags=re.M), m.group(2), m.group(3), re.sub(r"\s+", " ", m.group(4))
+            if "# Panics" not in doc or "glam_assert" not in doc:
                 continue
             parts = [a.strip() for a in args.split(",") if a.strip()] if args else []
-            recv, names, argtypes, exprs, ok = None, [], {}, {}, True
+            recv, names, argtypes, exprs, ok = None, [], {}, {}, not gen
             for a in parts:
                 if a in ("self", "mut self", "&self", "&mut self"):
                     recv = a
                     continue
                 pm = re.match(r"^(?:mut )?(\w+): (.+)$", a)
-                if not pm:
-                    ok = False
-                    break
-                ty = pm.group(2).strip()
-                e = c18.arg_expr(ty, N, t)
+                e = c18.arg_expr(pm.group(2).strip(), N, t) if pm else None
                 if e is None:
                     ok = False
                     break
+                ty = pm.group(2).strip()
                 names.append(pm.group(1))
                 argtypes[pm.group(1)] = ty.replace("&", "").replace("crate::", "").replace("Self", N)
                 exprs[pm.group(1)] = (e, ty.startswith("&"))
             if not ok:
+                uncovered.append("%s::%s(%s): not callable by the generator" % (N, fn, args))
                 continue
-            for k_, site in enumerate(sites):
-                v = violate(site, argtypes, N, n_of)
-                if v is None:
-                    uncovered.append("%s::%s: glam_assert!(%s)" % (N, fn, re.sub(r"\s+", " ", site)[:80]))
-                    continue
-                over, assume, what = v
+            viol, left = doc_violations(doc, argtypes, N, n_of)
+            if left:
+                uncovered.append("%s::%s: documented panic not modelled: %s" % (N, fn, left[:110]))
+            for k_, (over, assume, what) in enumerate(viol):
                 over = dict(over)
                 lines = []
                 for nm in names:
                     e, isref = exprs[nm]
-                    if nm in over:
-                        lines.append("let %s = %s;" % (nm, over[nm]))
-                    else:
-                        lines.append("let %s = %s;" % (nm, e[1:] if isref else e))
+                    lines.append("let %s = %s;" % (nm, over[nm] if nm in over else (e[1:] if isref else e)))
                 selfv = over.get("self", "mk::<%s>()" % N)
                 call_args = ", ".join(("&" + nm) if exprs[nm][1] else nm for nm in names)
                 if recv:
@@ -152,9 +153,10 @@ def site_obligations(config, obs, uncovered):
                     lines.append(assume)
                     lines.append("let _r = <%s>::%s(%s);" % (N, fn, call_args))
                 seen += 1
-                obs.append(Ob("c20_%s_site_%s_%s_%d" % (config, N.lower(), fn, k_), PROP, " ".join(l for l in lines if l), fn="%s::%s" % (N, fn), kind="panic", panic=True, solver="cadical",
+                slug = re.sub(r"[^a-z0-9]+", "_", what.lower()).strip("_")[:40]
+                obs.append(Ob("c20_%s_site_%s_%s_%s" % (config, N.lower(), fn, slug), PROP, " ".join(l for l in lines if l), fn="%s::%s" % (N, fn), kind="panic", panic=True, solver="cadical",
                               stubs=["sse_hv"] + ["%s%d" % (u, w) for u in HV], cls="control", tier="quick" if (simd or t == "f32") else "thorough",
-                              desc="%s::%s: glam_assert!(%s) - the call never returns when %s (every other argument arbitrary)" % (N, fn, re.sub(r"\s+", " ", site)[:70], what)))
+                              desc="%s::%s is documented to panic under glam_assert when %s: the call never returns (every other argument arbitrary)" % (N, fn, what)))
     return seen
 
 
@@ -233,7 +235,7 @@ def run(s):
         s.run_config(cfg, [], build(cfg, s.tier))
     s.assumptions += [
         "A7: 'assertions never change a returned value' rests on the syntactic frame scan of src/macros.rs (glam_assert! expands to assert!(..) or to nothing, no other cfg on the assert features) plus re-discharged lattice value obligations",
-        "generated site obligations: one always-panics obligation per glam_assert! site whose condition is about self or a named argument (scanned from the current source); non-normalized operands are represented by the zero vector / zero quaternion",
+        "generated obligations: one always-panics obligation per documented panic condition (`# Panics` doc paragraph, scanned from the current source) - the documentation is the spec, not the glam_assert! text; non-normalized operands are represented by the zero vector / zero quaternion",
         "non-unit inputs are represented by power-of-two lanes with |v|^2 in {1/4, 4, 16} (exactly outside 1 +- 2e-4)",
         "A5: sqrt / sin_cos uninterpreted where reached",
     ]
